@@ -371,6 +371,14 @@ fn check(case: &Case, obs: &mut Obs) -> PropResult {
 	}
 	let jar = build_jar(&entries, false)?;
 	let out = dukenest::nest_jar(case.remap, &jar, table.clone()).map_err(|e| format!("nest_jar failed: {e:#}"))?;
+	// second use of the same jar and an equal table: the same entries in the same order
+	if case.nests.len() % 3 == 0 {
+		let again = dukenest::nest_jar(case.remap, &jar, table.clone()).map_err(|e| format!("the second nest_jar on the same jar failed: {e:#}"))?;
+		if again.entries.keys().collect::<Vec<_>>() != out.entries.keys().collect::<Vec<_>>() {
+			return Err(format!("nesting the same jar with the same table twice gives other entries: {:?} vs {:?}", out.entries.keys().collect::<Vec<_>>(), again.entries.keys().collect::<Vec<_>>()));
+		}
+		obs.label("nested_twice");
+	}
 	let answers = ClassMapAnswers(if case.remap { name_map.clone() } else { BTreeMap::new() });
 	let mut expected: BTreeMap<String, CClass> = BTreeMap::new();
 	for (old, input) in &inputs {
